@@ -456,6 +456,8 @@ class Gen:
                     ps.append({"k": "s", "v": [ord(c) for c in r.choice(STRS)]})
                 else:
                     t = r.choice([x for x in self.scalar_tys() if x in INT_TYS + ["bool", "str", "char"]] or ["i32"])
+                    if self.has("tr") and r.random() < 0.3:
+                        t = "Tr"       # converted by the host's to_string: a host call between the parts
                     ps.append({"k": "e", "ty": t, "e": self.expr(t, d - 1)})
             return {"k": "fstr", "ps": ps}
         if f == "tostr":
@@ -697,6 +699,9 @@ class Gen:
             n, t = r.choice(vs)
             op = r.choice(["add", "sub", "mul", "div", "rem"])
             rhs = self.safe_divisor(t) if op in ("div", "rem") else self.expr(t, d - 1)
+            if op not in ("div", "rem") and r.random() < 0.3:
+                # the right-hand side itself assigns to the target: `x op= e` reads x BEFORE e is evaluated
+                rhs = block([{"k": "set", "p": [n], "e": self.expr(t, max(d - 1, 0))}], self.expr(t, max(d - 1, 0)))
             return {"k": "cset", "op": op, "ty": t, "p": [n], "e": rhs}
         if f == "usetr":
             vs = self.vars_of("Tr")
